@@ -306,6 +306,22 @@ Stratifiable(rules) ==
   LET lv == Levels(rules) IN
   \A p \in DOMAIN lv : lv[p] >= 0 /\ lv[p] <= Cardinality(DOMAIN lv)
 
+\* Strongly connected components of the dependency graph, and valid evaluation orders.
+Reach(E, P) ==
+  LET R0 == {<<p, p>> : p \in P} \cup {<<e[1], e[2]>> : e \in E}
+      RECURSIVE Close(_)
+      Close(R) == LET R3 == R \cup UNION {{<<a[1], b[2]>> : b \in {x \in R : x[1] = a[2]}} : a \in R} IN
+                  IF R3 = R THEN R ELSE Close(R3)
+  IN Close(R0)
+SCCs(rules) ==
+  LET P == HeadPreds(rules)
+      R == Reach(DepEdges(rules), P) IN
+  {{q \in P : <<p, q>> \in R /\ <<q, p>> \in R} : p \in P}
+\* component c may be evaluated when everything it depends on is done
+ReadyComp(rules, c, done) ==
+  \A e \in DepEdges(rules) : e[1] \in c => (e[2] \in c \/ e[2] \in done)
+
+
 RECURSIVE Lfp(_, _, _)
 \* least fixpoint of the plain rules over I; fuel bounds divergence (fuel 0 => give up)
 Lfp(rules, I, fuel) ==
